@@ -122,11 +122,29 @@ class _RealRecorder:
                 return _Proxy(od(), _callsite())
             return od(seed)
         rnd.default_rng = drng
+        # np.empty / np.empty_like promise nothing about the contents: hand out a garbage pattern that changes from call to
+        # call instead of whatever the heap happens to hold (a result that reads such cells is then visibly not a function
+        # of inputs and seed)
+        npm = self.np
+        self.saved_np = {"empty": npm.empty, "empty_like": npm.empty_like}
+        calls = [0]
+
+        def poison(a):
+            calls[0] += 1
+            if a.dtype.kind == "f" and a.size:
+                a.reshape(-1)[...] = ((npm.arange(a.size) * 7919 + calls[0] * 104729) % 1009) / 100.0
+            elif a.dtype.kind in "iu" and a.size:
+                a.reshape(-1)[...] = (1000003 * calls[0] + npm.arange(a.size)) % 120
+            return a
+        npm.empty = lambda *a, _o=self.saved_np["empty"], **k: poison(_o(*a, **k))
+        npm.empty_like = lambda *a, _o=self.saved_np["empty_like"], **k: poison(_o(*a, **k))
         return self
 
     def __exit__(self, *a):
         for n, o in self.saved.items():
             setattr(self.np.random, n, o)
+        for n, o in getattr(self, "saved_np", {}).items():
+            setattr(self.np, n, o)
         return False
 
 
